@@ -242,7 +242,7 @@ def pick_from(lst, k, seed):
 def c05(tier, seed):
     q = tier == "quick"
     units = cfg_shards("tables", "tables", NR, seed, dict(full=0 if q else 1, frac=16 if q else 1),
-                       pick=pick_from(TABLE_CFGS, 10, seed) if q else set(TABLE_CFGS))
+                       pick=pick_from(TABLE_CFGS, 10 if q else 16, seed))   # thorough: 16 of the 30, every pattern x every alignment
     # fewer bits than the index width before a strict end: every strict configuration (a stride-2 pick of
     # the 14 shards always left out the strict memory readers, which sit on odd shards)
     units += cfg_shards("eof", "eof", 14, seed + 3, dict(streams=1 if q else 4, len=16 if q else 40, cutstep=1))
@@ -517,14 +517,14 @@ def c19(tier, seed):
     variants = ALL_VARIANTS if not q else [("release", "checks"), ("dev", ""), ("dev", "checks,no_copy_impls")]
     for vi, v in enumerate(variants):
         tag = "%s-%s" % (v[0], v[1].replace(",", "+") or "default")
-        units += shards("hist-" + tag, "hist", 1 if q else 6, seed + vi, dict(histories=4 if q else 12, len=40), variant=v)
+        units += shards("hist-" + tag, "hist", 1 if q else 3, seed + vi, dict(histories=4 if q else 12, len=40), variant=v)
         units += shards("dirty-" + tag, "dirty", 1, seed + vi, dict(), variant=v)
         # quick: one rotating configuration and one over 64-bit words (where the >64-bit buffer paths live),
         # each in both endiannesses
-        cp = (pick_cfgs(NR, 2, seed + vi) | {18 + (seed + vi) % 6, 46 + (seed + vi) % 6}) if q else pick_cfgs(NR, 8, seed + vi)
+        cp = (pick_cfgs(NR, 2, seed + vi) | {18 + (seed + vi) % 6, 46 + (seed + vi) % 6}) if q else (pick_cfgs(NR, 4, seed + vi) | {18 + (seed + vi) % 6, 46 + (seed + vi) % 6})
         units += cfg_shards("copy-" + tag, "copy", NR, seed + vi, dict(rpaths=RP, wpaths=WP, full=0), pick=cp, variant=v)
         units += cfg_shards("codes-" + tag, "codes", 15, seed + vi, dict(mode="alone", full=0),
-                            pick=pick_cfgs(15, 1 if q else 6, seed + vi), variant=v)
+                            pick=pick_cfgs(15, 1 if q else 3, seed + vi), variant=v)
         # byte writes are cheap: every writer configuration in every variant
         units += cfg_shards("iow-" + tag, "wstates", NW, seed + vi, dict(paths=WP, ops="c12", full=0), variant=v)
         units += edge_units(tier, seed + vi, variant=v, n=3)
